@@ -3,6 +3,8 @@ from __future__ import annotations
 
 from typing import Any
 
+from hypothesis import strategies as st
+
 from vf import gen_bp, oracle_bp
 from vf.core import Ctx, HarnessError, require, sut
 
@@ -174,7 +176,52 @@ def check_decoded(ctx: Ctx, case: dict) -> None:
         best is not None and lb == best and best >= 2)), labels=labels)
 
 
-SUBS = {"guillotine": check_guillotine, "decoded": check_decoded}
+@st.composite
+def huge_area_cases(draw: Any) -> dict:
+    """Bins 10^10..10^12 wide and 5*10^3..3*10^5 high filled with unit-thin
+    strips: total item areas beyond 2^53, equal to or slightly above k bin
+    areas, with a k- (or k+1-)bin packing known by construction (strips
+    stacked on each other; the few extra thin items share one more bin)."""
+    W = draw(st.sampled_from([10 ** 10, 3 * 10 ** 11, 10 ** 12 - 1,
+                              10 ** 12]))
+    H = draw(st.integers(5000, 300000))
+    k = draw(st.integers(1, 3))
+    missing = draw(st.sampled_from([0, 0, 1, 2]))  # strips left out
+    items = [[W, 1, k * H - missing]]
+    extras = draw(st.lists(st.sampled_from(
+        [[1, 1, 1], [1, 1, 2], [W - 1, 1, 1], [W // 2, 1, 1], [2, 1, 3]]),
+        min_size=0, max_size=3))
+    items.extend([list(e) for e in extras])
+    free = missing  # rows still free in the k full bins
+    need = sum(e[2] for e in extras)  # each extra item occupies <= one row
+    bins = k if need <= free else k + 1
+    swap = draw(st.booleans())
+    if swap:
+        W, H = H, W
+        items = [[h, w, m] for w, h, m in items]
+    return {"W": W, "H": H, "items": items, "bins": bins,
+            "shape": "huge_area"}
+
+
+def check_huge_area(ctx: Ctx, case: dict) -> None:
+    W, H, items, k = case["W"], case["H"], case["items"], case["bins"]
+    inst, lb = bounds_of(ctx, W, H, items, "huge_area")
+    require(lb <= k, lambda: f"lower bound {lb} exceeds the {k} bins of the "
+            f"strip packing: bin {W}x{H}, items {items}")
+    side_views(inst, lb)
+    _i, lb2 = bounds_of(ctx, H, W, [[h, w, m] for w, h, m in items],
+                        "huge_area transposed")
+    require(lb2 == lb, f"bound changes from {lb} to {lb2} when transposed")
+    area = sum(w * h * m for w, h, m in items)
+    ctx.rec.case(case, nontrivial=area > 2 ** 53, labels=[
+        "shape=huge_area", "tight" if lb == k else f"gap={min(k - lb, 3)}",
+        "area_exact_multiple" if area % (W * H) == 0
+        else ("area_just_above_multiple" if area % (W * H) <= W + H
+              else "area_other")])
+
+
+SUBS = {"guillotine": check_guillotine, "decoded": check_decoded,
+        "huge_area": check_huge_area}
 
 
 def decoded_cases(**kw: Any) -> Any:
@@ -189,6 +236,8 @@ def decoded_cases(**kw: Any) -> Any:
 
 
 def run(ctx: Ctx) -> None:
+    ctx.given("huge_area", huge_area_cases(), check_huge_area, quick=40,
+              thorough=16 * 150, shrink=False)
     ctx.given("guillotine",
               gen_bp.guillotine_shaped(max_bins=ctx.pick(5, 7),
                                        max_dim=ctx.pick(40, 60),
